@@ -149,12 +149,21 @@ func (rep *Report) takeCover(def *propDef, st *CoverStats, cats []*cat.Catalog, 
 		}
 	}
 	vetted := map[string]bool{}
+	perKind := map[string]int{}
 	for _, ex := range st.Examples {
 		if def.claims(ex.Div.Kind, ex.Div.Detail) {
+			// up to 24 examples per kind are kept so that divergences an order-tolerant second
+			// opinion explains cannot crowd out one it does not; three findings per kind suffice
+			if perKind[ex.Div.Kind] >= 3 {
+				continue
+			}
 			if orderExplains(ex.Div.Kind) {
 				// the strict prediction failed: is the observed execution still one the
 				// specification allows when independent parameters are built in another order?
 				ok, done := vetted[ex.Line]
+				if !done && len(vetted) >= 40 {
+					continue // second opinions are bounded per stage; unvetted examples decide nothing
+				}
 				if !done {
 					if ml, err := run.ParseModelLine(ex.Line); err == nil {
 						res := run.Replay(cats[ex.Ci-1], ml, run.ReplayOpts{Keep: true})
@@ -167,6 +176,7 @@ func (rep *Report) takeCover(def *propDef, st *CoverStats, cats []*cat.Catalog, 
 					continue
 				}
 			}
+			perKind[ex.Div.Kind]++
 			rep.Findings = append(rep.Findings, Finding{Property: rep.Prop, Kind: ex.Div.Kind, Detail: ex.Div.Detail, Stage: st.Family,
 				Source: "cover", Catalog: cats[ex.Ci-1], Line: json.RawMessage(ex.Line)})
 		} else {
@@ -209,14 +219,19 @@ func (rep *Report) takeTrace(def *propDef, st *TraceStats, cfg TraceSpecCfg, err
 			rep.note("processcrash", c)
 		}
 	}
+	perKind := map[string]int{}
 	for _, ex := range st.Examples {
 		if def.claims(ex.Div.Kind, ex.Div.Detail) {
+			if perKind[ex.Div.Kind] >= 3 {
+				continue
+			}
 			if orderExplains(ex.Div.Kind) && ex.Rec != nil && ex.Rec.Variant == "" {
 				if ok, _ := vetFreeOrder(def, ex.Rec.Cat, ex.Rec.Opt, ex.Rec.Ops); ok {
 					rep.note("order-tolerated."+ex.Div.Kind, ex.Div.Detail)
 					continue
 				}
 			}
+			perKind[ex.Div.Kind]++
 			idx := 0
 			fmt.Sscanf(ex.Rec.Cat.Note[strings.LastIndex(ex.Rec.Cat.Note, "#")+1:], "%d", &idx)
 			c := cfg
